@@ -47,7 +47,10 @@ pub fn gen_kind(tier: Tier, rng: &mut Rng, c03: bool) -> Vec<Sx> {
     let n = if tier == Tier::Thorough { 150000 } else { 5000 };
     for _ in 0..n {
         let nr = rng.range(1, if c03 { 5 } else { 7 });
-        let rules: Vec<Sx> = (0..nr).map(|i| enc_rule(&gen_rule(rng, i as i64, !c03, c03))).collect();
+        // C03: a third of the self-triggering sets also carry agenda groups and ActivateAgendaGroup actions (the focus moves in the
+        // middle of a pass; eligibility must be re-read on every pass of the cycle loop)
+        let attrs = !c03 || rng.chance(1, 3);
+        let rules: Vec<Sx> = (0..nr).map(|i| enc_rule(&gen_rule(rng, i as i64, attrs, c03))).collect();
         let store = Sx::l((0..4).map(|_| Sx::i(rng.below(6) as i64)).collect());
         let maxc = if c03 { rng.below(65) } else { *rng.pick(&[1u64, 2, 3, 10]) };
         let mut hops = vec![];
